@@ -128,6 +128,13 @@ def run(ctx, rep):
         ok = any(x[0] == 'call' and x[1].split('::')[-1] == 'write' for x in walk(recv))
         rep.ob('R01.b', ctx.user_fn_of(d), 'write-guard', ok, c.where(), 'receiver obtained through .write()' if ok else 'receiver `%s` is not a write guard' % render(recv)[:80])
 
+    # ------------------------------------------------------------ R01.i a fresh partition / segment starts at its own first offset
+    rep.rule('R01.i', 'constructors: a partition starts at offset 0 without the increment flag, a segment starts at the offset it was created for, with its configured size limit', floor=12, analysis='A9')
+    from props import storage_forms as sf_
+    sf_.check_constructors(ctx, rep, 'R01.i', {
+        'Partition': ('current_offset', 'should_increment_offset', 'unsaved_messages_count', 'segments'),
+        'Segment': ('start_offset', 'current_offset', 'end_offset', 'is_closed', 'max_size_bytes', 'size_bytes', 'last_index_position', 'unsaved_messages')})
+
 
 def batch_forms(ctx, rep, rid):
     """shared by C01/C02/C03: what a flushed batch records about its offsets and time, and what the index rebuilder derives from it"""
